@@ -226,6 +226,11 @@ func (p *Prompt) MultilineColumnPrint() {
 		}
 
 		fmt.Print(column)
+
+	default:
+		// No column to print, but the caller relies on the cursor
+		// ending up on the last line of the input buffer.
+		term.MoveCursorDown(p.line.Lines())
 	}
 }
 
